@@ -501,6 +501,21 @@ func genLex(r *rand.Rand, tier string, st *Stats) []Case {
 			st.Counts["long-tokens"]++
 		}
 	}
+	// sources that are not ASCII: runes of every class the lexer distinguishes (letters, decimal digits, spaces of
+	// other scripts, symbols, astral, U+FFFD, malformed UTF-8) at token starts, inside tokens, in place of tokens and
+	// alone; the two runes unicode.ToLower maps into ASCII (U+0130, U+212A) inside keywords; compared with the model
+	// on the class image of the source (kinds and rune offsets)
+	nu := sizes(tier, 1500, 60000)
+	for i := 0; i < nu; i++ {
+		cases = append(cases, tokCase(fmt.Sprintf("uni%d", i), unicodeInsert(r), "unicode"))
+	}
+	for i, kw := range []string{"f\u0130nd all 'a'", "find s\u212aip 1 'a'", "find all ma\u212a 'a'", "find all d\u0130git", "find all \u212a", "find all 'a' \u0130n 'b'",
+		"find all l\u0130ne start", "find all whole f\u0130le", "find all '\u00e9' \u00e9 = \u00e9", "find all (letter) = \u03bb \u03bb", "find all \u0663 'a'", "find top \u0663 'a'",
+		"find all 'a'\u00a0'b'", "find all 'a'\u2003--\u2003c\n'b'", "find all @/\u00e9+/", "find all '\\x\u00e9'", "find all '\\\u00e9'", "\ufeff find all 'a'",
+		"find all \xff", "find all 'a\xffb'", "find all a\xc3", "find all \xe2\x82 'a'", "\xc0\x80", "\xed\xa0\x80find", "find all '\xf0\x9f\x98\x80' \xf0\x9f\x98\x80", "find \xf4\x90\x80\x80"} {
+		cases = append(cases, tokCase(fmt.Sprintf("unik%d", i), kw, "unicode"))
+	}
+	st.Counts["unicode-sources"] = nu
 	// sources containing NUL bytes (the lexer treats NUL as end of input: quirk, modelled)
 	nn := sizes(tier, 300, 30000)
 	for i := 0; i < nn; i++ {
